@@ -500,9 +500,11 @@ BareDone(s0, e) ==
     IN IF s.cur.etype # "rec" THEN s1
        ELSE IF s.cur.allc /\ ~SameBag(got, faults)
             THEN Flag(s1, {"C02", "C04"} \cup UNION {kp(d) : d \in diff}, "a probe-free type: the keep-going run does not report exactly the independent faults of the payload")
+       \* (ValueOf is the value of a payload without faults: asked only when there is none)
+       ELSE IF e.ok /\ faults # <<>> THEN Flag(s1, {"C02", "C04"} \cup BareRootProps(s.cur.ty) \cup UNION {kp(faults[j]) : j \in 1..Len(faults)},
+                                            "a probe-free type: Ok is returned for a payload that has faults")
        ELSE IF e.ok /\ ~EqMod(e.val, ValueOf(s.cur.ty, s.cur.val, s.cur.pk))
             THEN Flag(s1, BareRootProps(s.cur.ty), "a probe-free type: the value returned is not the one the payload prescribes")
-       ELSE IF e.ok /\ faults # <<>> THEN Flag(s1, {"C02", "C04"} \cup BareRootProps(s.cur.ty), "a probe-free type: Ok is returned for a payload that has faults")
        ELSE Seen(s1, {"C01", "C02", "C06", "C07", "C08", "C09", "C10"})
 
 Step(s, e) ==
